@@ -130,7 +130,7 @@ pub fn run_c10<M: ZooMsg + ?Sized>(sc: &Scenario, keep_log: bool) -> RunOutput {
     let mut dec = sc.decider();
     let mut stats: Stats = [0; P::_COUNT as usize];
     let nspec = if sc.aux.systematic { NSpec::Exactly(3) } else { NSpec::UpTo(4) };
-    let mut plan = make_plan::<M>(&mut dec, &mut stats, nspec, 1);
+    let mut plan = make_plan_opt::<M>(&mut dec, &mut stats, nspec, 1, !sc.aux.systematic);
     plan.retain_p = 0;
     let plan = Arc::new(plan);
     let wire = match guarded(|| wire_of::<M>(&plan)) {
